@@ -88,6 +88,7 @@ type RPC struct {
 	Execs     int
 	Delivered bool        // the caller got the callee's reply (not an injected RPC error)
 	Meta      interface{} // harness bookkeeping (e.g. what a lookup was guaranteed to see)
+	ExecGen   int         // leader incarnation that ran the callee (curator-bound calls)
 
 	exec   func() interface{}
 	fail   func() interface{}
